@@ -44,6 +44,18 @@ def make_files(r, tier):
     for name, (E, facts) in bads.items():
         p = os.path.join(d, "bad_%s.dimacs" % name.replace("+", "_")); write_file(p, base_n, E)
         files.append((p, facts, base_n, None))
+    # MANY violations, around the width of a process exit status (255, 256, 257, 512): a status computed from a count wraps
+    big_n = 600
+    path = [(i, i + 1, 1) for i in range(big_n - 1)]
+    for K in (255, 256, 257, 512):
+        many = {"zero%d" % K: ([(i, i + 1, 0) for i in range(K)] + path[K:], (0, 0, 1)),
+                "loops%d" % K: (path + [(i, i, 1) for i in range(K)], (1, 0, 0)),
+                "parallel%d" % K: (path + [(0, 1, 1)] * K, (0, 1, 0))}
+        if K == 256: many["mixed256"] = (path + [(i, i, 1) for i in range(100)] + [(0, 1, 1)] * 100 + [(i, i + 2, "-1") for i in range(56)], (1, 1, 1))
+        for name, (E, facts) in many.items():
+            if K in (255, 257) and not name.startswith("zero"): continue
+            p = os.path.join(d, "bad_%s.dimacs" % name); write_file(p, big_n, E)
+            files.append((p, facts, big_n, None))
     return files
 
 def parse_out(stdout):
@@ -69,14 +81,16 @@ def run(tier, replay=None):
     for fi, (path, facts, n, WE) in enumerate(files):
         subset = optsets if (tier != "quick" or fi < 2 or WE is None) else optsets[:4] if fi < 3 else optsets[:6:2]
         if WE is None and tier == "quick": subset = optsets[::3]
+        many = WE is None and n >= 600            # the many-violations files: one option set per program, one and two ranks
+        if many: subset = optsets[:1]
         for o in subset:
             extra = r.choice([{}, {"verbose": 1}, {"printcycles": 1}, {"cores": 2}])
             runs.append(("mcb", dict(o, **extra), fi, 1))
             runs.append(("approx", dict(o, k=r.choice([2, 3]), **extra), fi, 1))
         runs.append(("approx", dict(optsets[0], k=1), fi, 1))
         runs.append(("stats", {}, fi, 1))
-        for P in ([1, 2, 3] if tier == "quick" else [1, 2, 3, 4]):
-            for o in [optsets[0], optsets[2], optsets[4]] + ([optsets[6]] if WE is None else []):
+        for P in ([1, 2] if many else [1, 2, 3] if tier == "quick" else [1, 2, 3, 4]):
+            for o in [optsets[0]] if many else [optsets[0], optsets[2], optsets[4]] + ([optsets[6]] if WE is None else []):
                 runs.append(("mpi", {k: v for k, v in o.items() if k != "parallel"}, fi, P))
     exe = {"mcb": "mcb-dimacs", "approx": "approx-mcb-dimacs", "stats": "collection-stats-dimacs", "mpi": "mcb-dimacs-mpi"}
     mu_cache, bad, text, nrun = {}, [], "", 0
@@ -119,7 +133,7 @@ def run(tier, replay=None):
     verdicts = run_driver(text) if lean_ok else []
     oks, diffs, viols = parse_driver(verdicts)
     res.coverage.update({"evaluations": nrun, "distinct_nontrivial": len({json.dumps([a, b, c, d], sort_keys=True) for (a, b, c, d) in runs}),
-        "rule": "files (valid graphs with/without trailing newline; loop; parallel edge; zero weight; negative weight; several at once) x programs x option matrix (signed/fvstrees/isotrees in all shadowing combinations, parallel on/off, verbose, printcycles, cores, k) x mpiexec -n P; distinct by (program, options, file, P)",
+        "rule": "files (valid graphs with/without trailing newline; loop; parallel edge; zero weight; negative weight; several at once; 255/256/257/512 violations of one kind, 256 mixed) x programs x option matrix (signed/fvstrees/isotrees in all shadowing combinations, parallel on/off, verbose, printcycles, cores, k) x mpiexec -n P; distinct by (program, options, file, P)",
         "traces_validated_against_impl": len(oks), "mpi_runs": sum(1 for x in runs if x[0] == "mpi"),
         "samples": [{"prog": a, "opts": b, "file": os.path.basename(files[c][0]), "P": d} for (a, b, c, d) in runs[:2]]})
     if bad:
